@@ -737,3 +737,30 @@ Proof.
   - eapply inv_run_prelude; eassumption.
   - apply good_step; assumption.
 Qed.
+
+(* run() = prelude + steps: its final state is reachable when every step it takes is clean *)
+Fixpoint steps_clean (n fuel : nat) (codes : list prog) (s : state) : Prop :=
+  match n with
+  | O => True
+  | S m => step_clean fuel codes s /\
+           match step fuel codes s with (s1, ROk) => steps_clean m fuel codes s1 | _ => True end
+  end.
+
+Lemma reach_run_loop codes fuel u : forall n s,
+  reach codes s -> steps_clean n fuel codes s -> reach codes (fst (run_loop n fuel codes u s)).
+Proof.
+  induction n as [|n IH]; intros s R SC; cbn [run_loop fst]; [exact R|].
+  destruct SC as [SC1 SC2]. pose proof (reach_step codes fuel s R SC1) as R1.
+  destruct (step fuel codes s) as [s1 r]. cbn [fst] in R1.
+  destruct r; try exact R1. apply IH; assumption.
+Qed.
+
+Theorem reach_run codes fuel u s :
+  reach codes s ->
+  (forall s1, run_prelude u s = inr s1 -> steps_clean fuel fuel codes s1) ->
+  reach codes (fst (run fuel codes u s)).
+Proof.
+  intros R SC. unfold run. destruct (run_prelude u s) as [[s0 r0]|s1] eqn:HP.
+  - apply run_prelude_inl in HP. subst s0. exact R.
+  - apply reach_run_loop; [eapply reach_prelude; eassumption|apply SC; reflexivity].
+Qed.
